@@ -113,6 +113,15 @@ impl<T: Clone> Clone for Range<T> {
     }
 }
 
+//@@ impl src/lib.rs Cell
+//@@ fn src/lib.rs Cell::new props=C05 ret=c
+//@@ sig
+    ensures
+        //# C05.cell_new
+        c.p() == position && c.v() == value,
+//@@ end
+//@@ endimpl
+
 //@@ impl src/lib.rs Range
 // ASSUMED here (external_body), PROVED in unit range under the same clause text: Range::new
 //@@ fn src/lib.rs Range::new props=C05 ret=r external_body
